@@ -605,6 +605,11 @@ class PteraTransformer(NodeTransformer):
             node,
         )
 
+    def visit_ClassDef(self, node):
+        # The body of a nested class is its own scope: leave it alone (names
+        # generated by ptera would also be mangled inside it).
+        return node
+
     def visit_For(self, node):
         new_body = self.generate_interactions(node.target)
         new_body.extend(self.visit_body(node.body))
